@@ -11,6 +11,7 @@ twisted provides for that.  In replay the same harness runs on the real module w
 md5/base64/re.
 """
 import binascii
+import sys
 
 from vlib import api, lbytes, lift
 from vlib.api import H, cover
@@ -34,14 +35,22 @@ T0 = 1000000          # time of the challenge
 IP = "10.0.0.1"
 PASSWORD = "secret"
 METHOD = "GET"
-NONCE_TEXT = "9f8e7d6c5b4a"
-PRIVATE_KEY = "PRIVATEKEY12"
+REALM = "rlm1"
+NONCE_TEXT = "9f8e7d"
+PRIVATE_KEY = "PRIVKEY"
+OTHER_IP = "10.0.0.2"
+WRONG_PW = "Secret"
 
 
 # ---- lifted-world stand-ins for the C helpers -------------------------------------------------
 
+_TABLE = []     # the texts hashed so far on this path (reset by _issue)
+
+
 class _FakeHash:
-    """ideal hash: the digest is an injective rendering of (algorithm, everything hashed so far)"""
+    """ideal hash as a memo table (random-oracle style): the digest of a text is a short token naming
+    the first position at which that (algorithm, text) was hashed on this path - equal inputs give equal
+    digests, different inputs different ones; whether two hashed texts are equal is decided by the solver"""
 
     def __init__(self, tag, data=None):
         self.tag = tag
@@ -53,7 +62,16 @@ class _FakeHash:
         self.text = self.text + lbytes._s(x)      # TypeError for None, like the real one
 
     def digest(self):
-        return lbytes.LBytes("<" + self.tag + ":" + self.text + ">")
+        idx = -1
+        for i in range(len(_TABLE)):
+            tag, text = _TABLE[i]
+            if tag == self.tag and self.text == text:
+                idx = i
+                break
+        if idx < 0:
+            idx = len(_TABLE)
+            _TABLE.append((self.tag, self.text))
+        return lbytes.LBytes(("1" if self.tag == "md5" else "2") + "%07x" % idx)
 
 
 def _md5(data=None):
@@ -103,45 +121,59 @@ class _ParseParts:
         return [tuple(lbytes.LBytes(g) for g in m) for m in _findall_text(lbytes._s(x))]
 
 
-def _findall_text(s):
+def _cps(s):
+    """code points of a text as a list: plain ints where the character is concrete"""
+    tr = sys.modules.get("crosshair.tracers")
+    if tr is not None:
+        with tr.NoTracing():
+            if type(s) is not str and type(s).__name__ == "LazyIntSymbolicStr":
+                try:
+                    return list(s._codepoints)
+                except Exception:  # noqa
+                    pass
+    return [ord(c) for c in s]
+
+
+def _findall_text(text):
     out = []
+    s = _cps(text)
     n = len(s)
+    EQ, SP, QUOTE, COMMA = 61, 32, 34, 44
     p = 0
     while p < n:
         # group 1: the maximal run of characters other than '=' and ' ', then '='
         q = p
-        while q < n and s[q] != "=" and s[q] != " ":
+        while q < n and s[q] != EQ and s[q] != SP:
             q += 1
-        if q == p or q >= n or s[q] != "=":
+        if q == p or q >= n or s[q] != EQ:
             # no match starting here; a later start inside the same run fails the same way
             p = q + 1 if q > p else p + 1
             continue
-        key = s[p:q]
         v = q + 1
         end = None
         quoted = bare = ""
-        if v < n and s[v] == '"':
+        if v < n and s[v] == QUOTE:
             c = v + 1
-            while c < n and s[c] != '"':
+            while c < n and s[c] != QUOTE:
                 c += 1
             if c < n:
-                quoted = s[v + 1:c]
+                quoted = text[v + 1:c]
                 end = c + 1
         if end is None:
             c = v
-            while c < n and s[c] != ",":
+            while c < n and s[c] != COMMA:
                 c += 1
             if c > v:
-                bare = s[v:c]
+                bare = text[v:c]
                 end = c
         if end is None:
             # '=' directly followed by ',' or by the end: the regex retries at every later start of the
             # run, each of which needs this very '=' and fails again
             p = q + 1
             continue
-        if end < n and s[end] == ",":
+        if end < n and s[end] == COMMA:
             end += 1
-        out.append((key, quoted, bare))
+        out.append((text[p:q], quoted, bare))
         p = end
     return out
 
@@ -173,7 +205,8 @@ def _b64e(text):
 
 
 def _issue():
-    f = L.DigestCredentialFactory(b("md5"), b("test realm"))
+    del _TABLE[:]
+    f = L.DigestCredentialFactory(b("md5"), b(REALM))
     f.privateKey = b(PRIVATE_KEY)
     clock = [T0]
     f._getTime = lambda: clock[0]
@@ -182,8 +215,8 @@ def _issue():
 
 
 def _client_fields(ch):
-    return {"username": "user01", "realm": "test realm", "nonce": t(ch["nonce"]), "uri": "/dir/index",
-            "opaque": t(ch["opaque"]), "qop": "auth", "nc": "00000001", "cnonce": "0a4f113b",
+    return {"username": "usr1", "realm": REALM, "nonce": t(ch["nonce"]), "uri": "/d/i",
+            "opaque": t(ch["opaque"]), "qop": "auth", "nc": "0001", "cnonce": "0a4f",
             "algorithm": "md5"}
 
 
@@ -194,7 +227,7 @@ def _client_response(fields, password):
         return None if v is None else b(v)
     algo = b(fields.get("algorithm", "md5")).lower()
     qop = b(fields.get("qop", "auth"))
-    ha1 = _D.calcHA1(algo, g("username"), b("test realm"), b(password), g("nonce"), g("cnonce"))
+    ha1 = _D.calcHA1(algo, g("username"), b(REALM), b(password), g("nonce"), g("cnonce"))
     ha2 = _D.calcHA2(algo, b(METHOD), g("uri"), qop, None)
     return t(_D.calcResponse(ha1, ha2, algo, g("nonce"), g("nc"), g("cnonce"), qop))
 
@@ -230,11 +263,9 @@ def _pick(n, k):
     return n - 1
 
 
-def tamper(field: int, delete: bool, sym: str, wrongpw: bool, pw: str, otherip: bool, ip: str,
-           elapsed: int) -> bool:
+def tamper(field: int, delete: bool, sym: str, wrongpw: bool, otherip: bool, elapsed: int) -> bool:
     """
     pre: 0 <= field <= 9 and len(sym) <= B['x'] and all(ord(c) < 256 for c in sym)
-    pre: len(pw) <= 2 and all(ord(c) < 256 for c in pw) and len(ip) <= 2 and all(ord(c) < 256 for c in ip)
     pre: 0 <= elapsed <= 2000
     post: _
     """
@@ -243,23 +274,35 @@ def tamper(field: int, delete: bool, sym: str, wrongpw: bool, pw: str, otherip: 
     name = FIELDS[_pick(10, field)]
     f, clock, ch = _issue()
     fields = _client_fields(ch)
-    fields["response"] = _client_response(fields, pw if wrongpw else PASSWORD)
+    fields["response"] = _client_response(fields, WRONG_PW if wrongpw else PASSWORD)
     if delete:
         del fields[name]
     else:
         fields[name] = sym
     clock[0] = T0 + elapsed
-    res = _attempt(f, _render(fields), ip if otherip else IP)
+    res = _attempt(f, _render(fields), OTHER_IP if otherip else IP)
     api.obs(res)
     cover()
     # every value a client sends is longer than x bytes, so a replaced field never equals the original;
     # the realm field is not used by the server (it hashes its own realm); qop / algorithm default to
     # the values the client used
-    harmless = name == "realm" or (delete and (name == "qop" or name == "algorithm"))
+    harmless = name == "realm"
+    if name == "qop" or name == "algorithm":
+        # unquoted: an empty value or one starting with ',' does not parse as a pair at all = absent
+        if delete or len(sym) == 0 or sym[0] == ",":
+            harmless = True
+        elif name == "algorithm" and _is_md5(sym):
+            harmless = True
     good = harmless and not wrongpw and not otherip and elapsed <= LIFETIME
     if good:
         return res == "ok"
     return res == "login-failed" or res == "bad-password"
+
+
+def _is_md5(s):
+    if len(s) != 3:
+        return False
+    return (s[0] == "m" or s[0] == "M") and (s[1] == "d" or s[1] == "D") and s[2] == "5"
 
 
 def _clean(s):
@@ -269,11 +312,9 @@ def _clean(s):
     return True
 
 
-def legit(field: int, delete: bool, sym: str, wrongpw: bool, pw: str, otherip: bool, ip: str,
-          elapsed: int) -> bool:
+def legit(field: int, delete: bool, sym: str, wrongpw: bool, otherip: bool, elapsed: int) -> bool:
     """
     pre: 0 <= field <= 9 and field != 4 and 1 <= len(sym) <= B['x'] and _clean(sym)
-    pre: len(pw) <= 2 and all(ord(c) < 256 for c in pw) and len(ip) <= 2 and all(ord(c) < 256 for c in ip)
     pre: 0 <= elapsed <= 2000
     post: _
     """
@@ -290,9 +331,9 @@ def legit(field: int, delete: bool, sym: str, wrongpw: bool, pw: str, otherip: b
         return True     # an algorithm the client invents: covered by `tamper`
     if delete and name in ("username", "nonce", "uri"):
         return True     # the client cannot compute a response without them: covered by `tamper`
-    fields["response"] = _client_response(fields, pw if wrongpw else PASSWORD)
+    fields["response"] = _client_response(fields, WRONG_PW if wrongpw else PASSWORD)
     clock[0] = T0 + elapsed
-    res = _attempt(f, _render(fields), ip if otherip else IP)
+    res = _attempt(f, _render(fields), OTHER_IP if otherip else IP)
     api.obs(res)
     cover()
     good = not wrongpw and not otherip and elapsed <= LIFETIME and name != "nonce" and name != "opaque"
@@ -338,20 +379,23 @@ def forge(part: int, sym: str, keepdigest: bool, dig: str, elapsed: int) -> bool
     return res == "login-failed"
 
 
-def valid(elapsed: int, wrongpw: bool, pw: str) -> bool:
+def valid(elapsed: int, wrongpw: bool, pw: str, otherip: bool, ip: str, noip: bool) -> bool:
     """
-    pre: 0 <= elapsed <= 2000 and len(pw) <= 2 and all(ord(c) < 256 for c in pw)
+    pre: 0 <= elapsed <= 2000 and len(pw) <= 3 and all(ord(c) < 256 for c in pw)
+    pre: len(ip) <= 3 and all(ord(c) < 256 for c in ip)
     post: _
     """
-    # the untouched exchange: accepted iff the password is right and the challenge is young enough
+    # the untouched exchange: accepted iff the password is the account's, the request comes from the
+    # address the challenge was issued to (any other: symbolic text, empty, or None) and the challenge
+    # is at most CHALLENGE_LIFETIME_SECS old
     f, clock, ch = _issue()
     fields = _client_fields(ch)
     fields["response"] = _client_response(fields, pw if wrongpw else PASSWORD)
     clock[0] = T0 + elapsed
-    res = _attempt(f, _render(fields), IP)
+    res = _attempt(f, _render(fields), (None if noip else ip) if otherip else IP)
     api.obs(res)
     cover()
-    if elapsed > LIFETIME:
+    if otherip or elapsed > LIFETIME:
         return res == "login-failed"
     if wrongpw:
         return res == "bad-password"
@@ -359,7 +403,8 @@ def valid(elapsed: int, wrongpw: bool, pw: str) -> bool:
 
 
 HARNESSES = [
-    H(valid, timeout={"quick": 60, "thorough": 300}),
+    H(valid, shards=[("len(pw) == %d" % a, "len(ip) == %d" % c) for a in range(4) for c in range(4)],
+      timeout={"quick": 60, "thorough": 300}),
     H(tamper, shards=lambda tier: [("field == %d" % i, "delete") for i in range(10)] +
       [("field == %d" % i, "not delete", "len(sym) == %d" % n) for i in range(10) for n in range(BOUNDS[tier]["x"] + 1)],
       timeout={"quick": 100, "thorough": 1500}),
